@@ -134,6 +134,56 @@ def replay_arith(cases, F, mon):
             if not views_equal(lb, table_view(L)) or (rb is not None and not views_equal(rb, table_view(R))):
                 F.add("operands_unchanged", c, "operand table changed", "unchanged", **info)
             mon.see(r, "table arithmetic", rule=True)
+    ex += colwise_arith(F, mon)
+    return ex
+
+
+def colwise_arith(F, mon):
+    """"arithmetic with a table as left operand is the same operation applied column by column": for columns of
+    every kind (incl. dates + days, strings, nullable columns) the table operation must give, column by column,
+    what the library's own vector operation gives - and fail when (and only when) a column operation fails."""
+    from datetime import date as _d, timedelta as _td
+    ex = 0
+    kinds = {"int": [1, 2, 3], "int?": [1, None, 3], "float": [1.5, 2.5, 0.5], "str": ["a", "b", "c"], "bool": [True, False, True],
+             "date": [_d(2020, 1, 31), _d(2021, 2, 28), _d(2019, 12, 31)], "date?": [_d(2020, 1, 31), None, _d(2019, 12, 31)]}
+    scalars = [7, 2.5, "z", _td(days=2), True]
+    for k1, v1 in kinds.items():
+        for k2, v2 in kinds.items():
+            if k2 < k1:
+                continue
+            for opname, fn in OPS.items():
+                rights = [("scalar " + repr(R), R, None) for R in scalars]
+                rights += [("table of " + rk, None, rv) for rk, rv in (("int", [1, 2, 3]), ("int?", [2, None, 1]), ("str", ["x", "y", "z"]))]
+                for rname, R, rv in rights:
+                    L = Table({"p": list(v1), "q": list(v2)})
+                    if R is None:
+                        R = Table({"r": list(rv), "s": list(rv)})
+                        rcols = list(R.cols())
+                    else:
+                        rcols = [R, R]
+                    lb = table_view(L)
+                    per = [attempt(lambda c=c, y=y: fn(c, y)) for c, y in zip(L.cols(), rcols)]
+                    st, r, e = attempt(lambda: fn(L, R))
+                    ex += 1
+                    case = {"left columns": [k1, k2], "op": opname, "right": rname}
+                    col_ok = all(p[0] == "ok" and isinstance(p[1], Vector) for p in per)
+                    if not col_ok:
+                        if st == "ok" and any(p[0] != "ok" for p in per):
+                            F.add("table_arith", case, "table operation returned " + repr([list(x) for x in r.cols()] if isinstance(r, Table) else r),
+                                  "an error (the column operation itself raises " + next(type(p[2]).__name__ for p in per if p[0] != "ok") + ")")
+                        continue
+                    exp = [list(p[1]) for p in per]
+                    if st != "ok" or not isinstance(r, Table):
+                        F.add("table_arith", case, "raised " + type(e).__name__ + ": " + str(e)[:80] if st != "ok" else type(r).__name__, exp)
+                        continue
+                    got = [list(x) for x in r.cols()]
+                    if not views_equal(got, exp):
+                        F.add("table_arith", case, got, exp)
+                    elif [str(x.schema()) for x in r.cols()] != [str(p[1].schema()) for p in per]:
+                        F.add("table_arith_dtype", case, [str(x.schema()) for x in r.cols()], [str(p[1].schema()) for p in per])
+                    if not views_equal(lb, table_view(L)):
+                        F.add("operands_unchanged", case, "operand table changed", "unchanged")
+                    mon.see(r, "table arithmetic (column kinds)", rule=False)
     return ex
 
 
@@ -355,6 +405,40 @@ def struct(out_path):
                 st, r, e = attempt(lambda: t << [9] * (ncols + 1))
                 if st == "ok":
                     F.add("ragged_outcome", case, "accepted a row of the wrong width", "rejected", how="<<")
+                # every way of handing a row over (sized and one-shot iterables, a Row of another table, a table of
+                # rows) x width too short / right / too long: rejected, or appended to EVERY column; never ragged,
+                # never a lost column, never a silently dropped cell
+                for width in (ncols - 1, ncols, ncols + 1):
+                    if width < 0:
+                        continue
+                    cells = [9] * width
+                    forms = {"list": lambda: list(cells), "tuple": lambda: tuple(cells), "Vector": lambda: Vector(list(cells)) if cells else None,
+                             "generator": lambda: (x for x in cells), "iter(list)": lambda: iter(list(cells)), "map": lambda: map(int, list(cells)),
+                             "Row of another table": lambda: Table([Vector([9], name="n%d" % k) for k in range(width)])[0] if width else None,
+                             "one-row table": lambda: Table([Vector([9], name="n%d" % k) for k in range(width)]) if width else None,
+                             "two-row table": lambda: Table([Vector([9, 9], name="n%d" % k) for k in range(width)]) if width else None}
+                    for fname, mkrow in forms.items():
+                        rowobj = mkrow()
+                        if rowobj is None:
+                            continue
+                        st, r, e = attempt(lambda: t << rowobj)
+                        ex += 1
+                        how = "t << %s of %d cells (table has %d columns)" % (fname, width, ncols)
+                        if not views_equal([list(c) for c in t.cols()], cols) or t.column_names() != names:
+                            F.add("operands_unchanged", case, "t changed by <<", "unchanged", how=how)
+                        if st != "ok":
+                            continue              # rejecting a form is always allowed
+                        if not isinstance(r, Table):
+                            F.add("append_rows", case, type(r).__name__, "a table", how=how)
+                            continue
+                        got = [list(c) for c in r.cols()]
+                        add = 2 if fname == "two-row table" else 1
+                        if len({len(c) for c in got}) > 1:
+                            F.add("rectangular", case, [len(c) for c in got], "columns of one length", how=how)
+                        elif width != ncols:
+                            F.add("ragged_outcome", case, "accepted: " + repr(got), "rejected (the row does not fit the table)", how=how)
+                        elif not views_equal(got, [col + [9] * add for col in cols]):
+                            F.add("append_rows", case, got, [col + [9] * add for col in cols], how=how)
                 # transposing twice gives back the cells (needs at least one row and one column)
                 if nrows >= 1:
                     st, r, e = attempt(lambda: t.T.T)
